@@ -34,11 +34,41 @@ pub fn roundtrip_bytes(format: Format, game: truth::Game, maps: &[String], bytes
                 let off = b2.iter().zip(bytes.iter()).position(|(a, b)| a != b).unwrap_or(b2.len().min(bytes.len()));
                 // known cause: a conditional jump between two literals (`unless (1) { }` compiles to a jump comparing
                 // 1 and 0) decompiles to `if (1 == 0)`, which const folding turns into another jump opcode
-                let sig = if has_constant_condition(&text) { format!("roundtrip-bytes-differ constant-condition-jump") } else { format!("roundtrip-bytes-differ {}", format.name()) };
+                let sig = if has_constant_condition(&text) { format!("roundtrip-bytes-differ constant-condition-jump") }
+                          else if has_foldable_sugar(&text) { format!("roundtrip-bytes-differ constant-operands-folded") }
+                          else { format!("roundtrip-bytes-differ {}", format.name()) };
                 fail(sig, format!("{} opts={optbits} width={width}: first difference at offset {off} (len {} vs {}); text: {}", game, bytes.len(), b2.len(), text.chars().take(600).collect::<String>()))
             }
         },
     }
+}
+
+fn is_num_literal(t: &str) -> bool {
+    let t = t.trim_start_matches('-');
+    !t.is_empty() && (t.parse::<f64>().is_ok() || t.starts_with("0x") || t.starts_with("0b") || t == "INF" || t == "NAN" || t == "true" || t == "false")
+}
+
+/// does the text contain an assignment whose right-hand side the compiler folds to a constant:
+/// `x = LIT op LIT;`, `x op= ...` is not one; `x = f(LIT);` for the built-in unary functions, `x = -LIT` is a literal anyway
+fn has_foldable_sugar(text: &str) -> bool {
+    for line in text.lines() {
+        let Some(p) = line.find(" = ") else { continue };
+        let rhs = line[p + 3..].trim().trim_end_matches(';');
+        let toks: Vec<&str> = rhs.split_whitespace().collect();
+        if toks.len() == 3 && is_num_literal(toks[0]) && is_num_literal(toks[2]) && matches!(toks[1], "+" | "-" | "*" | "/" | "%" | "|" | "&" | "^" | "<<" | ">>" | ">>>" | "==" | "!=" | "<" | "<=" | ">" | ">=" | "||" | "&&") { return true; }
+        for f in ["sin", "cos", "tan", "asin", "acos", "atan", "sqrt", "int", "float", "$", "%", "!", "~", "-"] {
+            if let Some(inner) = rhs.strip_prefix(f).and_then(|r| r.strip_prefix('(')).and_then(|r| r.strip_suffix(')')) { if is_num_literal(inner.trim()) { return true; } }
+        }
+        // ternary / nested forms with literal-only subexpressions: `(LIT op LIT)` anywhere
+        let mut rest = rhs;
+        while let Some(q) = rest.find('(') {
+            let inner = rest[q + 1..].split(')').next().unwrap_or("");
+            let t: Vec<&str> = inner.split_whitespace().collect();
+            if t.len() == 3 && is_num_literal(t[0]) && is_num_literal(t[2]) { return true; }
+            rest = &rest[q + 1..];
+        }
+    }
+    false
 }
 
 /// does the text contain `if|unless|while (LIT op LIT)` with two numeric literals?
@@ -103,6 +133,13 @@ impl Prop for C01 {
                 if tier == Tier::Quick && !(bits == 0 || bits == 31 || bits.count_ones() == 1 || rng.chance(1, 6)) { continue; }
                 let width = *rng.pick(&widths);
                 out.push(Case::search(Sexp::app("rtbin", vec![Sexp::atom(format.name()), Sexp::atom(format!("{game}")), Sexp::list(vec![]), Sexp::int(bits), Sexp::int(width as i64), Sexp::atom(hex(&bytes))])).tag(format!("bundled-{name}")));
+            }
+        }
+        // intrinsic instructions spelled as raw calls with arbitrary operands (the decompiler's sugar must recompile to them)
+        for _ in 0..300 * scale {
+            let g = gensrc::gen_raw_intrinsics(rng);
+            for bits in [0u32, 1 << rng.below(5)] {
+                out.push(Case::search(Sexp::app("rt", vec![Sexp::atom(g.format.name()), Sexp::atom(format!("{}", g.game)), Sexp::list(g.maps.iter().map(|m| Sexp::str(m.clone())).collect()), Sexp::int(bits), Sexp::int(99), Sexp::str(g.text.clone())])).tag(format!("raw-intrinsics-{}", g.format.name())));
             }
         }
         for _ in 0..1200 * scale {
